@@ -73,6 +73,12 @@ def curated():
                                     T("T1", [call("MN")])]}
     D["nested_two_deep"] = {"items": [M("M0", iw=0, ow=0), T("T0", [If([{"k": "trans", "name": "TA", "ready": "free", "body": [
         Sw(1, [("1", [{"k": "trans", "name": "TB", "ready": "free", "body": [call("M0")] + ALLW}])]), wit("comb")]}], els=[wit("comb")])])]}
+    # a nested transaction is not adjacent to its parent's conflicts in the conflict graph (it is kept from running by
+    # its ready dependency on the parent), but its own calls conflict like anybody else's
+    D["nested_parent_conflict"] = {"items": [M("M0"), M("M1", iw=0), T("T0", [call("M0")]),
+                                             T("T1", [call("M0"), {"k": "trans", "name": "TN", "ready": "free", "body": [call("M1"), wit("comb")]}])]}
+    D["nested_child_conflict"] = {"items": [M("M0"), T("T0", [call("M0")]),
+                                            T("T1", [wit("comb"), {"k": "trans", "name": "TN", "ready": "free", "body": [call("M0")]}])]}
     D["witness_everywhere"] = {"items": [M("M0", ALLW + [If(ALLW, els=[Sw(2, [("01", ALLW)], default=ALLW)])], iw=1, ow=0),
                                          T("T0", ALLW + [call("M0"), Fsm(ALLW, [If(ALLW)])])]}
     D["conflict_tt"] = {"items": [T("T0", [wit("comb")]), T("T1", [wit("comb")]), T("T2")], "relations": [["conflict", "T0", "T1", "U"], ["conflict", "T2", "T1", "L"]]}
